@@ -426,6 +426,12 @@ def main(argv: list[str]) -> int:
             if vio is None:
                 print(f"replay {args.replay}: property held")
                 return 0
+            with open(args.replay, encoding="utf-8") as handle:
+                replayed = json.load(handle)
+            matched = Context(module, args.tier, seed, known)._match_known(replayed["sub"], replayed["spec"], vio)
+            if matched is not None:
+                print(f"KNOWN-FINDING: property={prop} {matched} (replay {args.replay})")
+                return 0
             print(f"replay {args.replay}: {vio.clause}: {json.dumps(vio.detail, default=str)[:2000]}")
             print(f"VIOLATION property={prop} replay={args.replay}")
             return 1
